@@ -50,7 +50,7 @@ RotToks == {
   [s |-> <<"9", "e", "1">>, v |-> 90, dot |-> TRUE, lead |-> "digit"],
   [s |-> <<"4", "5">>, v |-> 45, dot |-> FALSE, lead |-> "digit"],
   [s |-> <<"-", "9", "e", "1">>, v |-> -90, dot |-> TRUE, lead |-> "sign"] }
-RadToks == {t \in NumToks : t.v \in {0, 20, 10, 200, -20}}
+RadToks == {t \in NumToks : t.v \in {0, 20, 10, 40, -20}}       \* keeps Builder!Lam2 inside 32 bits
 FlagToks == {[s |-> <<"0">>, v |-> 0, dot |-> FALSE, lead |-> "flag"], [s |-> <<"1">>, v |-> 1, dot |-> FALSE, lead |-> "flag"]}
 
 Letters == {"M", "m", "Z", "z", "L", "l", "H", "h", "V", "v", "C", "c", "S", "s", "Q", "q", "T", "t", "A", "a"}
@@ -110,7 +110,7 @@ Repeats(c) == IF c = "M" THEN "L" ELSE IF c = "m" THEN "l" ELSE c
 
 \* arcs: keep the exact arithmetic of Builder!Lam2 inside 32 bits
 ArcInRange(c, a) == IF Upper(c) # "A" THEN TRUE
-                    ELSE LET p == AddP(Off(c), Pt2(a[6], a[7])) IN Abs(p[1] - p0[1]) <= 400 /\ Abs(p[2] - p0[2]) <= 400
+                    ELSE LET p == AddP(Off(c), Pt2(a[6], a[7])) IN Abs(p[1] - p0[1]) <= 200 /\ Abs(p[2] - p0[2]) <= 200
 InRange(p) == Abs(p[1]) <= 1000 /\ Abs(p[2]) <= 1000
 
 Finish(c, a) ==      \* the argument set is complete: apply the command
@@ -174,6 +174,9 @@ GTypeOK == /\ ph \in {"cmd", "arg"} /\ (ph = "arg" => Len(acc) < NArgs(cmd)) /\ 
 GPenOK == ph = "cmd" => (IF st.mode = "fresh" THEN TRUE ELSE st.pen = p0)
 
 \* ---- fuzz: all strings over the symbol alphabet ------------------------------------------------------
+\* symbols of Sym that the parser skips as separators: a string made of these only is "only separators" (feature of #9)
+SepSyms == {" ", ","}
+OnlySeparators(s) == s # <<>> /\ \A i \in 1..Len(s) : s[i] \in SepSyms
 Sym == <<"M", "z", "A", "1", "-", ".", "e", " ", ",", "L", "0", "h", "+", "x">>
 FInit == /\ str = <<>> /\ st = InitSt /\ hist = <<>> /\ ph = "cmd" /\ cmd = "" /\ acc = <<>> /\ lastk = "none"
          /\ p0 = <<0, 0>> /\ sp = <<0, 0>> /\ lc = <<0, 0>> /\ lq = <<0, 0>> /\ prev = ""
@@ -182,7 +185,8 @@ FNext == /\ Len(str) < MaxChars
          /\ UNCHANGED <<st, hist, ph, cmd, acc, lastk, p0, sp, lc, lq, prev>>
 FSpec == FInit /\ [][FNext]_tvars2
 \* every state stands for str itself and for str followed by each single symbol of Sym (ext)
-FEmit == PrintT("@@" \o ToJson([kind |-> "fuzz", str |-> str, ext |-> IF Len(str) = MaxChars THEN Sym ELSE <<>>]))
+FEmit == PrintT("@@" \o ToJson([kind |-> "fuzz", str |-> str, ext |-> IF Len(str) = MaxChars THEN Sym ELSE <<>>,
+                                 onlysep |-> OnlySeparators(str), sepsyms |-> SepSyms]))
 
 \* ---- documents for ParseSVG --------------------------------------------------------------------------
 \* a document is a sequence of tokens; mutations delete, duplicate or truncate at token level, or replace one
@@ -221,4 +225,5 @@ TextHeader == [hdr |-> TRUE, precision |-> Precision,
                tolArcMinExp |-> (Precision - 1) \div 2,   \* ArcRadiiMinimal: centre is ill-conditioned, sqrt of the above
                tolArcCubicMilli |-> 2,              \* ToPDF replaces arcs by cubic Beziers: 2/1000 of the larger radius
                stringEqualsExp |-> 9]               \* "equals p": 1e-9 relative (Equals uses Epsilon = 1e-10 absolute)
+THdrInv == (str = <<>>) => PrintT("@@" \o ToJson(TextHeader))
 =============================================================================
